@@ -64,6 +64,11 @@ impl LocalMetadataClient {
 
 #[cfg(feature = "verif-hooks")]
 impl LocalMetadataClient {
+    /// Verification hook: compaction level recorded for a chunk path.
+    pub fn verif_chunk_level(&self, path: &str) -> Option<u32> {
+        self.chunk_levels.get(path).map(|l| *l)
+    }
+
     /// Verification hook: move every stored lease instant `secs` seconds into the past,
     /// which is observationally the same as `secs` seconds of wall-clock time passing.
     pub fn verif_shift_lease_times(&self, secs: i64) {
